@@ -157,10 +157,11 @@ def check_getters(text: str, root: M.RawModel, res: core.CaseResult) -> list[tup
                 res.fail(f'C17/getter-run-differs[{side}]',
                          f'{text!r}: {_pathstr(path)} ({type(m).__name__}).raw_spacing_{side} = {_names(raw)}, '
                          f'reference run = {_names(want)} (tokens #{run})', mincase)
-            wtxt = ''.join(t.raw_text for t in want)
-            if txt != wtxt:
-                res.fail(f'C17/getter-text-differs[{side}]',
-                         f'{text!r}: {_pathstr(path)} ({type(m).__name__}).spacing_{side} = {txt!r}, reference {wtxt!r}', mincase)
+            # text getter == concatenation of the reference run, split into: raw getter == reference (above) and
+            # text getter == concatenation of the raw getter (so that one wrong scan is one finding)
+            if txt != ''.join(t.raw_text for t in raw):
+                res.fail(f'C17/text-getter-differs-from-raw-getter[{side}]',
+                         f'{text!r}: {_pathstr(path)} ({type(m).__name__}).spacing_{side} = {txt!r}, raw getter {_names(raw)}', mincase)
             # evidence bookkeeping: the neighbourhood as the scan sees it
             lo, hi = (stop, k) if side == 'before' else (k, stop)
             nb = tuple((type(t).__name__, t.raw_text if isinstance(t, BLANK) else '') for t in toks[max(lo, 0):hi + 1])
@@ -199,6 +200,8 @@ def check_getters(text: str, root: M.RawModel, res: core.CaseResult) -> list[tup
 # ---------------------------------------------------------------------------------------------------------------
 # setters
 
+_PRE: dict[str, tuple] = {}
+
 def check_set(text: str, path: tuple, side: str, s: str, via: str, res: core.CaseResult) -> None:
     """One assignment on a fresh parse."""
     mincase = {'text': text, 'path': list(path), 'side': side, 's': s, 'via': via}
@@ -231,8 +234,11 @@ def check_set(text: str, path: tuple, side: str, s: str, via: str, res: core.Cas
         mode = 'delete' if run else 'noop'
     tag = f'{side},{"run" if run else "no-run"}'
     what = f'{text!r}: {_pathstr(path)} ({type(m).__name__}).{"raw_" if via == "raw" else ""}spacing_{side} = {s!r}'
-    sig0 = tree.signature(root)
-    pre_errs = tree.check_tree(root)
+    pre = _PRE.get(text)                      # a function of the text alone; every execution still parses afresh
+    if pre is None:
+        _PRE.clear()
+        pre = _PRE[text] = (tree.signature(root), bool(tree.check_tree(root)))
+    sig0, pre_errs = pre
     if via == 'raw':
         value: Any = tuple((M.Whitespace if at in (' ', '\t') else M.Newline).from_raw_text(at) for at in _ATOMS_OF[s])
     else:
@@ -254,18 +260,21 @@ def check_set(text: str, path: tuple, side: str, s: str, via: str, res: core.Cas
     if res.sample is None and run and s not in ('', old_run):
         res.sample = {'text': text, 'subject': _pathstr(path), 'class': type(m).__name__, 'side': side, 'assigned': s,
                       'via': via, 'old_run': old_run, 'printed_after': new_text}
-    if new_text != want_text:
+    store_text = ''.join(t.raw_text for t in new)
+    if new_text != want_text or store_text != new_text:
+        # one key for the text clause; the weaker sub-clauses of the statement are named in the message
+        strip = str.maketrans('', '', ' \t\r\n')
+        sub = []
+        if new_text.translate(strip) != whole.translate(strip):
+            sub.append('non-blank text changed')
+        if len(new_text) - len(whole) != len(s) - len(old_run):
+            sub.append(f'length {len(whole)} -> {len(new_text)}, expected change {len(s) - len(old_run)}')
+        if store_text != new_text:
+            sub.append(f'token store holds {store_text!r}')
         res.fail(f'C17/setter-text-not-run-replaced[{tag}]',
-                 f'{what}: printed {new_text!r}, expected {want_text!r} (run {old_run!r} at [{a}:{b}])', mincase)
-    strip = str.maketrans('', '', ' \t\r\n')
-    if new_text.translate(strip) != whole.translate(strip):
-        res.fail(f'C17/setter-changes-non-blank-text[{tag}]', f'{what}: printed {new_text!r}', mincase)
-    if len(new_text) - len(whole) != len(s) - len(old_run):
-        res.fail(f'C17/setter-length[{tag}]',
-                 f'{what}: length {len(whole)} -> {len(new_text)}, expected change {len(s) - len(old_run)}', mincase)
-    if ''.join(t.raw_text for t in new) != new_text:
-        res.fail(f'C17/setter-print-differs-from-store[{tag}]',
-                 f'{what}: printed {new_text!r}, store {"".join(t.raw_text for t in new)!r}', mincase)
+                 f'{what}: printed {new_text!r}, expected {want_text!r} (run {old_run!r} at [{a}:{b}])'
+                 + (' [' + '; '.join(sub) + ']' if sub else ''), mincase)
+        return                                   # the token-level and read-back clauses would repeat the same defect
     # token level: everything outside the run keeps identity, order and text
     old_ids = set(order)
     runset = set(run)
@@ -364,11 +373,7 @@ def main(run: core.Run) -> None:
                 if t in seen:
                     continue
                 seen.add(t)
-                if tier == 'quick':
-                    scope, raw = ('all', False) if n <= 1 else ('tokens', False)
-                else:
-                    scope, raw = 'all', True
-                items.append({'text': t, 'set': scope, 'raw': raw})
+                items.append({'text': t, 'set': 'all', 'raw': tier != 'quick'})
     run.rule = ('all documents of <= n lines over a 12-kind line alphabet x {LF, CRLF} x {final newline, none}, parsed as File '
                 '(comments attributed by default); in each accepted document every model and token with spacing accessors '
                 'except the root x {before, after}: raw and text getter against the token-level reference run, two-sided '
@@ -379,8 +384,7 @@ def main(run: core.Run) -> None:
         'line_alphabet': LINES, 'max_lines': nmax, 'eol_variants': [f'{e}{"+final" if f else ""}' for e, f in VARIANTS],
         'getters': f'all subjects of all accepted documents <= {nmax} lines, both sides, raw + text, two-sided clause',
         'setter_strings': STRINGS,
-        'setters': ('documents <= 1 line: every model and token, both sides, 21 strings via spacing_*; 2-line documents: '
-                    'every token (leaf) subject, both sides, 21 strings via spacing_*' if tier == 'quick' else
+        'setters': ('documents <= 2 lines: every model and token, both sides, 21 strings via spacing_*' if tier == 'quick' else
                     'documents <= 3 lines: every model and token, both sides, 21 strings, via spacing_* and via raw_spacing_* '
                     '(one Whitespace/Newline token per atom)'),
     })
